@@ -50,7 +50,7 @@ Handle(X, key) ==
   IF ~CanHandle(X) THEN X
   ELSE IF key = "scheduled" THEN (IF "scheduled" \in X.dirty THEN DeliverScheduledDo(X) ELSE X)
   ELSE IF key = "presence" THEN (IF "presence" \in X.dirty THEN DeliverPresenceDo(X) ELSE X)
-  ELSE DeliverEventsDo(X, SeqOf(X.evq))
+  ELSE DeliverEventsDo(DeliverAllAppsDo(X, SelectSeq(AppSeq, LAMBDA a : a \in X.aq)), SeqOf(X.evq))
 
 RECURSIVE HandleAll(_, _)
 HandleAll(X, keys) == IF keys = <<>> THEN X ELSE HandleAll(Handle(X, Head(keys)), Tail(keys))
@@ -78,12 +78,12 @@ StartCuts(X) ==
               : P \in {Q \in AllP : LegalP(X1.m, Q)}}
 
 EnvName(ev) == CASE ev = "CreateApp" -> "Schedule" [] ev = "DeleteApp" -> "Unschedule"
-                 [] OTHER -> ev
+                 [] ev = "SetPrio" -> "AppsEvent" [] OTHER -> ev
 
 Successors(X, line) ==
   LET ev == line.ev IN
   IF "noop" \in DOMAIN line /\ line.noop THEN {X}
-  ELSE IF ev \in {"CreateApp", "DeleteApp", "NodeDown", "NodeUp", "DeleteServer", "CreateServer"}
+  ELSE IF ev \in {"CreateApp", "DeleteApp", "NodeDown", "NodeUp", "DeleteServer", "CreateServer", "SetPrio"}
   THEN IF EnvEnabled(X, EnvName(ev), <<line.args[1]>>)
        THEN {HandleAll(EnvDo(X, EnvName(ev), <<line.args[1]>>), line.order)}   \* (order = <<>> while deferred)
        ELSE {}
@@ -114,7 +114,7 @@ Next ==
                        fail |-> IF skip THEN {} ELSE
                                 F("ext.lag.step", match # {})
                                 \cup F("ext.lag.init", i > 1 \/ ObsOf(S0) = Canon(Traces[t].lines[1].obs)),
-                       ex |-> E("lost", skip) \cup E("lag", ~skip /\ S.dirty \cup S.evq # {})
+                       ex |-> E("lost", skip) \cup E("lag", ~skip /\ S.dirty \cup S.evq \cup S.aq # {})
                               \cup E("cut", ~skip /\ "crashed" \in DOMAIN line /\ line.crashed)]))
 
 Spec == Init /\ [][Next]_vars
